@@ -155,16 +155,25 @@ func (t *PageTree) loadPages() error {
 	t.pages = make([]*Page, 0)
 
 	// Start recursive traversal from root
-	if err := t.traversePageNode(t.root, nil); err != nil {
+	if err := t.traversePageNode(t.root, nil, make(map[int]bool), 0); err != nil {
 		return fmt.Errorf("failed to traverse page tree: %w", err)
 	}
 
 	return nil
 }
 
+// maxPageTreeDepth bounds the nesting of /Pages nodes that is followed.
+const maxPageTreeDepth = 4096
+
 // traversePageNode recursively traverses a page tree node
 // parent is the parent Pages dictionary for inheritable attributes
-func (t *PageTree) traversePageNode(node core.Dict, parent core.Dict) error {
+// onPath holds the object numbers of the /Kids references on the path from the root to
+// this node: a corrupt file can list an ancestor (or the node itself) among its /Kids.
+func (t *PageTree) traversePageNode(node core.Dict, parent core.Dict, onPath map[int]bool, depth int) error {
+	if depth > maxPageTreeDepth {
+		return fmt.Errorf("page tree nested more than %d levels deep", maxPageTreeDepth)
+	}
+
 	// Get the type to determine if this is a Pages node or Page leaf
 	typeObj := node.Get("Type")
 	if typeObj == nil {
@@ -197,6 +206,12 @@ func (t *PageTree) traversePageNode(node core.Dict, parent core.Dict) error {
 
 		// Traverse each child
 		for i, kidObj := range kids {
+			// A kid that is already on the path from the root closes a cycle
+			kidRef, isRef := kidObj.(core.IndirectRef)
+			if isRef && onPath[kidRef.Number] {
+				return fmt.Errorf("circular /Kids reference to object %d", kidRef.Number)
+			}
+
 			// Resolve child reference
 			kidResolved, err := t.resolver.Resolve(kidObj)
 			if err != nil {
@@ -209,7 +224,14 @@ func (t *PageTree) traversePageNode(node core.Dict, parent core.Dict) error {
 			}
 
 			// Recursively traverse child (passing current node as parent)
-			if err := t.traversePageNode(kidDict, node); err != nil {
+			if isRef {
+				onPath[kidRef.Number] = true
+			}
+			err = t.traversePageNode(kidDict, node, onPath, depth+1)
+			if isRef {
+				delete(onPath, kidRef.Number)
+			}
+			if err != nil {
 				return err
 			}
 		}
